@@ -175,4 +175,43 @@ rfc_cl_extra_ok(uint32_t sym, uint32_t extra)
 {
         return sym <= 15 ? extra == 0 : sym == 16 ? extra < 4 : sym == 17 ? extra < 8 : sym == 18 ? extra < 128 : 0;
 }
+/* packed level-0 table entry of igzip ("bits 4:0 are the code length, bits 31:5 are the code", igzip_lib.h):
+ * Huffman code of the symbol, the RFC extra-bits value above it (LSB-first bit order), total length below */
+static inline uint32_t
+spec_pack_code(uint32_t huff_code, uint32_t huff_len, uint32_t extra_val, uint32_t extra_bits)
+{
+        return ((huff_code | (extra_val << huff_len)) << 5) | (huff_len + extra_bits);
+}
+
+/* RFC 1951 3.2.6 fixed Huffman code:
+ *        Lit Value    Bits        Codes
+ *          0 - 143     8          00110000 through 10111111
+ *        144 - 255     9          110010000 through 111111111
+ *        256 - 279     7          0000000 through 0010111
+ *        280 - 287     8          11000000 through 11000111
+ * distance codes 0-31: fixed-length 5-bit codes.  Codes are given MSB first; Huffman codes are packed into the
+ * stream starting with their most significant bit (3.1.1), so an LSB-first bit writer holds them bit-reversed. */
+static inline uint32_t
+rfc_fixed_len(uint32_t sym)
+{
+        return sym <= 143 ? 8u : sym <= 255 ? 9u : sym <= 279 ? 7u : 8u;
+}
+static inline uint32_t
+rfc_fixed_code(uint32_t sym)
+{
+        return sym <= 143 ? 0x30u + sym : sym <= 255 ? 0x190u + (sym - 144) : sym <= 279 ? sym - 256 : 0xc0u + (sym - 280);
+}
+/* reverse the low `len` (<= 16) bits of code */
+static inline uint32_t
+rfc_bitrev(uint32_t code, uint32_t len)
+{
+        uint32_t x = code & 0xffff;
+        x = ((x & 0x5555) << 1) | ((x >> 1) & 0x5555);
+        x = ((x & 0x3333) << 2) | ((x >> 2) & 0x3333);
+        x = ((x & 0x0f0f) << 4) | ((x >> 4) & 0x0f0f);
+        x = ((x & 0x00ff) << 8) | ((x >> 8) & 0x00ff);
+        return len == 0 ? 0 : (x >> (16 - (len <= 16 ? len : 16)));
+}
+/* RFC 1951 3.2.7: order in which the code lengths of the code-length alphabet are transmitted */
+static const uint8_t rfc_clc_order[19] = { 16, 17, 18, 0, 8, 7, 9, 6, 10, 5, 11, 4, 12, 3, 13, 2, 14, 1, 15 };
 #endif
